@@ -30,6 +30,35 @@ pub enum Profile {
     Production,
 }
 
+/// Profile type 3: derived implementation whose variants carry OTHER attributes next to
+/// `#[px(profile = "...")]`: before it (doc comment, `#[allow]`, `#[cfg_attr]`, `#[default]` of
+/// `#[derive(Default)]`) or after it. Every custom name differs from the snake_case variant name
+/// (`doc_before`, `allow_before`, ...), which is what the derive falls back to without `#[px]`.
+#[derive(ConfigProfile, Debug, Clone, Copy, PartialEq, Eq, Default)]
+pub enum Stage {
+    /// A doc comment written before the `px` attribute.
+    #[px(profile = "doc_b")]
+    DocBefore,
+    #[allow(dead_code)]
+    #[px(profile = "allow_b")]
+    AllowBefore,
+    #[cfg_attr(all(), allow(dead_code))]
+    #[px(profile = "cfgattr_b")]
+    CfgAttrBefore,
+    #[default]
+    #[px(profile = "default_b")]
+    DefaultBefore,
+    #[px(profile = "allow_a")]
+    #[allow(dead_code)]
+    AllowAfter,
+    #[px(profile = "doc_a")]
+    /// A doc comment written after the `px` attribute.
+    DocAfter,
+}
+/// snake_case names of the variants of `Stage` and `Profile` (decoy file names)
+const STAGE_SNAKE: [&str; 6] = ["doc_before", "allow_before", "cfg_attr_before", "default_before", "allow_after", "doc_after"];
+const PROFILE_SNAKE: [&str; 2] = ["development", "production"];
+
 /// Profile type 2: hand-written implementation (as documented on the trait) whose names contain a
 /// dot, which the derive macro forbids: `prod.eu` / `prod.us`.
 #[derive(Debug, Clone, Copy, PartialEq, Eq)]
@@ -136,6 +165,18 @@ enum PName {
     ProdEu,
     #[serde(rename = "prod.us")]
     ProdUs,
+    #[serde(rename = "doc_b")]
+    DocB,
+    #[serde(rename = "allow_b")]
+    AllowB,
+    #[serde(rename = "cfgattr_b")]
+    CfgAttrB,
+    #[serde(rename = "default_b")]
+    DefaultB,
+    #[serde(rename = "allow_a")]
+    AllowA,
+    #[serde(rename = "doc_a")]
+    DocA,
 }
 impl PName {
     fn as_str(self) -> &'static str {
@@ -144,6 +185,12 @@ impl PName {
             PName::Prod => "prod",
             PName::ProdEu => "prod.eu",
             PName::ProdUs => "prod.us",
+            PName::DocB => "doc_b",
+            PName::AllowB => "allow_b",
+            PName::CfgAttrB => "cfgattr_b",
+            PName::DefaultB => "default_b",
+            PName::AllowA => "allow_a",
+            PName::DocA => "doc_a",
         }
     }
     fn other(self) -> PName {
@@ -152,17 +199,46 @@ impl PName {
             PName::Prod => PName::Dev,
             PName::ProdEu => PName::ProdUs,
             PName::ProdUs => PName::ProdEu,
+            PName::DocB => PName::AllowA,
+            PName::AllowA => PName::DocB,
+            PName::AllowB => PName::DocA,
+            PName::DocA => PName::AllowB,
+            PName::CfgAttrB => PName::DefaultB,
+            PName::DefaultB => PName::CfgAttrB,
         }
     }
     /// hand-written `ConfigProfile` impl (`Region`) rather than the derived one (`Profile`)
     fn manual(self) -> bool {
         matches!(self, PName::ProdEu | PName::ProdUs)
     }
+    /// derived impl on the enum whose variants mix `#[px]` with other attributes (`Stage`)
+    fn attrs(self) -> bool {
+        matches!(self, PName::DocB | PName::AllowB | PName::CfgAttrB | PName::DefaultB | PName::AllowA | PName::DocA)
+    }
     fn ptype(self) -> &'static str {
-        if self.manual() { "manual" } else { "derived" }
+        if self.manual() {
+            "manual"
+        } else if self.attrs() {
+            "derived-attrs"
+        } else {
+            "derived"
+        }
     }
 }
-const PNAMES: [PName; 4] = [PName::Dev, PName::Prod, PName::ProdEu, PName::ProdUs];
+const PNAMES: [PName; 10] = [
+    PName::Dev,
+    PName::Prod,
+    PName::ProdEu,
+    PName::ProdUs,
+    PName::DocB,
+    PName::AllowB,
+    PName::CfgAttrB,
+    PName::DefaultB,
+    PName::AllowA,
+    PName::DocA,
+];
+const CORE_PROFILES: [PName; 4] = [PName::Dev, PName::Prod, PName::ProdEu, PName::ProdUs];
+const ATTR_PROFILES: [PName; 6] = [PName::DocB, PName::AllowB, PName::CfgAttrB, PName::DefaultB, PName::AllowA, PName::DocA];
 
 #[derive(Debug, Clone, Copy, PartialEq, Eq, Hash, PartialOrd, Ord, Serialize, Deserialize)]
 #[serde(rename_all = "kebab-case")]
@@ -264,7 +340,7 @@ fn name_of<T: Serialize>(v: T) -> String {
     json!(v).as_str().unwrap_or("?").to_string()
 }
 
-const TAGS: [&str; 7] = ["base", "profile", "env", "other", "decoy", "staging", "stem"];
+const TAGS: [&str; 8] = ["base", "profile", "env", "other", "decoy", "staging", "stem", "snake"];
 
 /// Source-tagged distinct values. Lists have source-dependent lengths, so that concatenation,
 /// index-wise merging and truncation are all distinguishable from whole-value replacement.
@@ -283,6 +359,7 @@ fn sval(key: usize, tag: &str) -> Value {
             "decoy" => 55,
             "staging" => 66,
             "stem" => 77,
+            "snake" => 88,
             _ => 99,
         }),
         3 => list("l", match tag {
@@ -473,13 +550,21 @@ fn setup(case: &Case, sc: &mut Scratch) -> Setup {
     let prof_doc = yaml_tagged(&case.assign, PROF, "profile");
     let c = persistent;
     // files next to the real ones that must never be read: the other profile of the same type,
-    // `staging.yml` (the invalid PX_PROFILE value) and, for dotted profile names, the file named
-    // after the part before the dot (`prod.yml`)
+    // `staging.yml` (the invalid PX_PROFILE value), for dotted profile names the file named
+    // after the part before the dot (`prod.yml`), for derived impls the files named after the
+    // snake_case variant names
     let extras = |sc: &mut Scratch, files: &mut Vec<(String, String)>| {
         mkfile(sc, files, c, &real, &format!("{other}.yml"), yaml_all("other"));
         mkfile(sc, files, c, &real, "staging.yml", yaml_all("staging"));
         if case.profile.manual() {
             mkfile(sc, files, c, &real, "prod.yml", yaml_all("stem"));
+        } else {
+            // derived impls: files named after the snake_case variant names, which is what the
+            // derive uses when a variant has no `#[px(profile = ..)]`
+            let snake: &[&str] = if case.profile.attrs() { &STAGE_SNAKE } else { &PROFILE_SNAKE };
+            for n in snake {
+                mkfile(sc, files, c, &real, &format!("{n}.yml"), yaml_all("snake"));
+            }
         }
     };
     match case.files {
@@ -604,6 +689,14 @@ fn child_main(argv: &[String]) -> ! {
             ("derived", "-") => run_loader::<Profile>(None, &confdir, &target),
             ("derived", "dev") => run_loader(Some(Profile::Development), &confdir, &target),
             ("derived", "prod") => run_loader(Some(Profile::Production), &confdir, &target),
+            ("derived-attrs", "-") => run_loader::<Stage>(None, &confdir, &target),
+            ("derived-attrs", "doc_b") => run_loader(Some(Stage::DocBefore), &confdir, &target),
+            ("derived-attrs", "allow_b") => run_loader(Some(Stage::AllowBefore), &confdir, &target),
+            ("derived-attrs", "cfgattr_b") => run_loader(Some(Stage::CfgAttrBefore), &confdir, &target),
+            // `#[default]` variant, obtained the way an application would
+            ("derived-attrs", "default_b") => run_loader(Some(Stage::default()), &confdir, &target),
+            ("derived-attrs", "allow_a") => run_loader(Some(Stage::AllowAfter), &confdir, &target),
+            ("derived-attrs", "doc_a") => run_loader(Some(Stage::DocAfter), &confdir, &target),
             ("manual", "-") => run_loader::<Region>(None, &confdir, &target),
             ("manual", "prod.eu") => run_loader(Some(Region::ProdEu), &confdir, &target),
             ("manual", "prod.us") => run_loader(Some(Region::ProdUs), &confdir, &target),
@@ -1010,7 +1103,7 @@ fn plan(tier: verif_common::Tier) -> (Vec<Case>, Vec<Value>) {
         src.iter().copied().filter(|a| a.iter().all(|x| x & bits == 0)).collect()
     };
     let rel_with_ancestor = vec![RelCwdDefault, RelCwdNamed, RelParentDefault];
-    let every = PNAMES.to_vec();
+    let every = CORE_PROFILES.to_vec();
     let dotted = vec![PName::ProdEu, PName::ProdUs];
     let mut slices: Vec<Slice> = Vec::new();
     let mut s = |name, assigns: &[Assign], profiles: &[PName], pmodes: &[PMode], dmodes: &[DMode], targets: &[Target], files| {
@@ -1032,9 +1125,10 @@ fn plan(tier: verif_common::Tier) -> (Vec<Case>, Vec<Value>) {
         let union: Vec<Assign> = main.iter().chain(small.iter()).copied().collect::<BTreeSet<_>>().into_iter().collect();
         let derived = [PName::Dev, PName::Prod];
         s("main: full product, derived profiles (a, b.c, b.d, l over 8^4 subsets; b.m = rot(l))", &main, &derived, &PMODES_OK, &DMODES, &TARGETS, FMode::All);
-        s("lists: l x b.m over 8x8 subsets, scalars in {none, everywhere, a@base b.c@profile b.d@env}; full product of the other factors, all four profiles", &lists, &every, &PMODES_OK, &DMODES, &TARGETS, FMode::All);
+        s("lists: l x b.m over 8x8 subsets, scalars in {none, everywhere, a@base b.c@profile b.d@env}; full product of the other factors, the four core profiles", &lists, &every, &PMODES_OK, &DMODES, &TARGETS, FMode::All);
         s("dotted profiles (hand-written ConfigProfile): tied assignments (a, b.c, b.d over 8^3, l tied to a, b.m = rot(l)); full product of the other factors", &tied, &dotted, &PMODES_OK, &DMODES, &TARGETS, FMode::All);
-        s("profile errors: tied assignments; profile type in {derived, manual}; full product of the other factors", &tied, &[PName::Dev, PName::ProdEu], &PMODES_ERR, &DMODES, &TARGETS, FMode::All);
+        s("attribute-order profiles (derive on variants mixing #[px] with doc/allow/cfg_attr/default attributes, before and after): tied assignments; pmodes x dmodes x targets{option,required}", &tied, &ATTR_PROFILES, &PMODES_OK, &DMODES, &[Target::Option, Target::Required], FMode::All);
+        s("profile errors: tied assignments; profile type in {derived, manual, derived-attrs}; full product of the other factors", &tied, &[PName::Dev, PName::ProdEu, PName::DocB], &PMODES_ERR, &DMODES, &TARGETS, FMode::All);
         s("missing <profile>.yml", &without(&union, PROF), &every, &[EnvValid, Explicit], &DMODES, &TARGETS, FMode::NoProfileFile);
         s("missing base.yml", &without(&union, BASE), &every, &[EnvValid, Explicit], &DMODES, &TARGETS, FMode::NoBaseFile);
         s("missing both files", &without(&union, BASE | PROF), &every, &[EnvValid, Explicit], &DMODES, &TARGETS, FMode::NoFiles);
@@ -1056,7 +1150,9 @@ fn plan(tier: verif_common::Tier) -> (Vec<Case>, Vec<Value>) {
         s("dotted profiles{prod.eu,prod.us} x pmodes{env-valid,explicit} (tied; dmode=rel-cwd-default, target=option)", &tied, &dotted, &[EnvValid, Explicit], &[RelCwdDefault], &[Target::Option], FMode::All);
         s("dotted profiles x pmodes x dmodes x targets (assignments: every key everywhere / every key in both files)", &dense, &dotted, &PMODES_OK, &DMODES, &TARGETS, FMode::All);
         s("profile errors/emodes (tied; derived profile type, dmode=rel-cwd-default, target=option)", &tied, &[PName::Dev], &PMODES_ERR, &[RelCwdDefault], &[Target::Option], FMode::All);
-        s("profile errors/emodes x profile type x dmodes x targets (assignment: every key everywhere)", &dense[..1], &[PName::Dev, PName::ProdEu], &PMODES_ERR, &DMODES, &TARGETS, FMode::All);
+        s("attribute-order profiles{doc_b,allow_b,cfgattr_b,default_b,allow_a,doc_a} x pmodes{env-valid,explicit} (tied; dmode=rel-cwd-default, target=option)", &tied, &ATTR_PROFILES, &[EnvValid, Explicit], &[RelCwdDefault], &[Target::Option], FMode::All);
+        s("attribute-order profiles x pmodes x dmodes x targets (assignments: every key everywhere / every key in both files)", &dense, &ATTR_PROFILES, &PMODES_OK, &DMODES, &TARGETS, FMode::All);
+        s("profile errors/emodes x profile type x dmodes x targets (assignment: every key everywhere)", &dense[..1], &[PName::Dev, PName::ProdEu, PName::DocB], &PMODES_ERR, &DMODES, &TARGETS, FMode::All);
         for (fm, asg, name, name2) in [
             (FMode::NoProfileFile, without(&union, PROF), "missing <profile>.yml x dmodes x targets (profile=dev, pmode=env-valid)", "missing <profile>.yml, dotted (profile=prod.eu, pmode=explicit, dmode=rel-cwd-default, target=option)"),
             (FMode::NoBaseFile, without(&union, BASE), "missing base.yml x dmodes x targets (profile=dev, pmode=env-valid)", "missing base.yml, dotted (profile=prod.eu, pmode=explicit, dmode=rel-cwd-default, target=option)"),
@@ -1409,7 +1505,7 @@ fn main() {
         "evaluations": st.evaluated,
         "distinct_nontrivial": st.nontrivial,
         "exhaustive": true,
-        "rule": "Alphabet: keys {a (string), b.c (string), b.d (u64), l (list of strings), b.m (list of strings)}; b.* nested (YAML mapping / PX_B__C, PX_B__D, PX_B__M); each key assigned to a subset of {base.yml, <profile>.yml, PX_ env} with source-tagged distinct values (a-base/a-profile/a-env, c-*, 11/22/33; lists l-<src>-<i>, m-<src>-<i> with source-dependent lengths 2/3/1 and 1/2/3, env lists written in figment's documented syntax PX_L=[\"l-env-1\"]). Assignment sets: `main` = a, b.c, b.d, l over all 8^4 subsets with b.m = rot(l) (base->profile->env->base); `lists` = l x b.m over all 8x8 subset pairs x 3 scalar configurations; `tied` = a, b.c, b.d over all 8^3 subsets, l tied to a's subset, b.m = rot(l). Thorough uses main for the derived profiles and tied + lists for the hand-written dotted profiles, the error and the split-directory families; quick uses tied + lists. Profile in {dev, prod} (enum deriving ConfigProfile with #[px(profile=..)]) and {prod.eu, prod.us} (hand-written ConfigProfile impl whose names contain a dot; a file prod.yml with different values sits next to prod.eu.yml / prod.us.yml); profile supply in {PX_PROFILE valid, .profile() with PX_PROFILE unset / set to the other profile / set to an invalid name} plus error modes {PX_PROFILE unset, =staging, =empty, no .profile()}; directory in {default `configuration` in cwd, named `settings` in cwd, default in parent of cwd, named in grandparent, absolute via .configuration_dir()}; target in {all-Option, required, deny_unknown_fields, probe struct with a field named `profile`}; file presence in {both files present (with a decoy directory holding different values one search step further, plus the other profile's file and staging.yml with different values), profile file missing, base file missing, both missing, directory missing, split directory}. Bound: thorough = the full product of the factors per family as listed under `slices`; quick = the union of the slices listed under `slices` (each keeps a complete assignment set and fixes the factors named in its label). Every case runs the real ConfigLoader::load in a fresh child process with env_clear + only the case's PX_ variables and a controlled cwd (the child echoes its environment and cwd, verified). Oracle (reference model `expect`): per key env > profile file > base file by whole-value replacement (lists are replaced, never concatenated or merged index-wise), None/absent if nowhere; required target with a key nowhere => Err; no .profile() and PX_PROFILE unset/invalid/empty => Err; .profile(p) wins over PX_PROFILE; values of the decoy directory / other profile / staging.yml / prod.yml (for dotted names) never surface; PX_PROFILE never fails a deny_unknown_fields struct nor populates a field named `profile`; missing file/directory: weak oracle (Err accepted, Ok must still follow precedence over the existing sources); split directory: either reading accepted (observation only). Non-trivial = precedence had to choose between >= 2 sources for at least one key, or an error is forced by the property; cases are distinct Case tuples (deduplicated in a set before execution), so the count is of distinct cases.",
+        "rule": "Alphabet: keys {a (string), b.c (string), b.d (u64), l (list of strings), b.m (list of strings)}; b.* nested (YAML mapping / PX_B__C, PX_B__D, PX_B__M); each key assigned to a subset of {base.yml, <profile>.yml, PX_ env} with source-tagged distinct values (a-base/a-profile/a-env, c-*, 11/22/33; lists l-<src>-<i>, m-<src>-<i> with source-dependent lengths 2/3/1 and 1/2/3, env lists written in figment's documented syntax PX_L=[\"l-env-1\"]). Assignment sets: `main` = a, b.c, b.d, l over all 8^4 subsets with b.m = rot(l) (base->profile->env->base); `lists` = l x b.m over all 8x8 subset pairs x 3 scalar configurations; `tied` = a, b.c, b.d over all 8^3 subsets, l tied to a's subset, b.m = rot(l). Thorough uses main for the derived profiles and tied + lists for the hand-written dotted profiles, the error and the split-directory families; quick uses tied + lists. Profile in {dev, prod} (enum deriving ConfigProfile with #[px(profile=..)]) and {prod.eu, prod.us} (hand-written ConfigProfile impl whose names contain a dot; a file prod.yml with different values sits next to prod.eu.yml / prod.us.yml) and {doc_b, allow_b, cfgattr_b, default_b, allow_a, doc_a} (a second derived enum whose variants carry another attribute — doc comment, #[allow], #[cfg_attr], #[default] of derive(Default) — before, resp. after, #[px(profile=..)]; every custom name differs from the snake_case variant name); for derived enums, files named after the snake_case variant names (development.yml, doc_before.yml, ...) with different values sit next to the real files; profile supply in {PX_PROFILE valid, .profile() with PX_PROFILE unset / set to the other profile / set to an invalid name} plus error modes {PX_PROFILE unset, =staging, =empty, no .profile()}; directory in {default `configuration` in cwd, named `settings` in cwd, default in parent of cwd, named in grandparent, absolute via .configuration_dir()}; target in {all-Option, required, deny_unknown_fields, probe struct with a field named `profile`}; file presence in {both files present (with a decoy directory holding different values one search step further, plus the other profile's file and staging.yml with different values), profile file missing, base file missing, both missing, directory missing, split directory}. Bound: thorough = the full product of the factors per family as listed under `slices`; quick = the union of the slices listed under `slices` (each keeps a complete assignment set and fixes the factors named in its label). Every case runs the real ConfigLoader::load in a fresh child process with env_clear + only the case's PX_ variables and a controlled cwd (the child echoes its environment and cwd, verified). Oracle (reference model `expect`): per key env > profile file > base file by whole-value replacement (lists are replaced, never concatenated or merged index-wise), None/absent if nowhere; required target with a key nowhere => Err; no .profile() and PX_PROFILE unset/invalid/empty => Err; .profile(p) wins over PX_PROFILE; values of the decoy directory / other profile / staging.yml / prod.yml (for dotted names) / <snake_case variant name>.yml (for derived enums) never surface; PX_PROFILE never fails a deny_unknown_fields struct nor populates a field named `profile`; missing file/directory: weak oracle (Err accepted, Ok must still follow precedence over the existing sources); split directory: either reading accepted (observation only). Non-trivial = precedence had to choose between >= 2 sources for at least one key, or an error is forced by the property; cases are distinct Case tuples (deduplicated in a set before execution), so the count is of distinct cases.",
         "slices": slices,
         "distinct_assignments_reached": st.distinct_assign.len(),
         "control_cases": n_controls,
@@ -1436,7 +1532,7 @@ fn main() {
             "Env lists use the syntax figment's Env provider documents (`[..]` array of `\"..\"` strings); that such a value replaces the files' list as a whole is what 'takes each key from the environment if present' forces.",
             "A missing <profile>.yml / base.yml / directory is NOT asserted to be an error: neither the property text ('missing profile' = PX_PROFILE not supplied) nor the guide documents it as one; observed outcomes are recorded under missing_file_observations.",
             "The split-directory family is an observation (docs: search stops at the first matching directory; figment searches per file), not part of the verdict.",
-            "Profile names outside the enum are represented by `staging` and the empty string; dotted profile names by prod.eu / prod.us.",
+            "Profile names outside the enum are represented by `staging` and the empty string; dotted profile names by prod.eu / prod.us; attribute placements around #[px] by the six variants of the second derived enum.",
         ],
     );
     std::process::exit(code);
